@@ -195,3 +195,33 @@ package cff
 //@   requires o != nil
 //@   ensures n == len(o.Glyphs)
 //@   modifies nothing
+
+// readCharset: total on arbitrary bytes - no panic, every loop terminates (each
+// range record adds at least one glyph), allocation bounded by the glyph count
+// plus one range; on success exactly nGlyphs entries, the first is .notdef (0),
+// every entry is a 16-bit SID/CID.
+//@ func readCharset(p *parser.Parser, nGlyphs int) (charset []int32, err error)   props: C13 C02 C18
+//@   requires parser.inv(p)
+//@   ensures err == nil ==> len(charset) == nGlyphs && nGlyphs >= 1 && charset[0] == 0 && forall i int :: 0 <= i && i < len(charset) ==> 0 <= charset[i] && charset[i] <= 65535
+//@   ensures faults(p.r) > old(faults(p.r)) ==> err != nil
+//@   loop 0
+//@     invariant parser.inv(p) && 0 <= i && i <= nGlyphs - 1 && len(charset) == 1 + i && fresh(charset) && 1 <= nGlyphs && nGlyphs < 65536 && faults(p.r) == old(faults(p.r))
+//@     invariant forall k int :: 0 <= k && k < len(charset) ==> 0 <= charset[k] && charset[k] <= 65535
+//@     invariant charset[0] == 0
+//@     decreases nGlyphs - 1 - i
+//@   loop 1
+//@     invariant parser.inv(p) && 1 <= len(charset) && fresh(charset) && 1 <= nGlyphs && nGlyphs < 65536 && faults(p.r) == old(faults(p.r)) && charset[0] == 0
+//@     invariant forall k int :: 0 <= k && k < len(charset) ==> 0 <= charset[k] && charset[k] <= 65535
+//@     decreases nGlyphs - len(charset)
+//@   loop 2
+//@     invariant parser.inv(p) && 0 <= i && i <= nLeft + 1 && len(charset) == atentry(len(charset)) + i && fresh(charset) && faults(p.r) == old(faults(p.r)) && charset[0] == 0 && 1 <= len(charset) && first <= 65535 && 0 <= first
+//@     invariant forall k int :: 0 <= k && k < len(charset) ==> 0 <= charset[k] && charset[k] <= 65535
+//@     decreases nLeft + 1 - i
+//@   loop 3
+//@     invariant parser.inv(p) && 1 <= len(charset) && fresh(charset) && 1 <= nGlyphs && nGlyphs < 65536 && faults(p.r) == old(faults(p.r)) && charset[0] == 0
+//@     invariant forall k int :: 0 <= k && k < len(charset) ==> 0 <= charset[k] && charset[k] <= 65535
+//@     decreases nGlyphs - len(charset)
+//@   loop 4
+//@     invariant parser.inv(p) && 0 <= i && i <= nLeft + 1 && len(charset) == atentry(len(charset)) + i && fresh(charset) && faults(p.r) == old(faults(p.r)) && charset[0] == 0 && 1 <= len(charset) && first <= 65535 && 0 <= first
+//@     invariant forall k int :: 0 <= k && k < len(charset) ==> 0 <= charset[k] && charset[k] <= 65535
+//@     decreases nLeft + 1 - i
